@@ -4,11 +4,11 @@ CONSTANTS
   Kind = "nest"
   InitPartial = FALSE
   Mirror = FALSE
-  MaxLevel = 4
+  MaxLevel = 3
   Small = TRUE
   Avoid = FALSE
   SimK = 0
-  Acts = {"oset", "rebind", "nest"}
+  Acts = {"oset", "rebind", "nest", "ctor", "batch"}
 CONSTRAINT LevelBound
 VIEW view
 INVARIANT Conforms
